@@ -57,5 +57,13 @@ func TestVerif(t *testing.T) {
 		}()
 		rep = f(tier)
 	}()
-	os.Exit(rep.Finish(dir))
+	rc := rep.Finish(dir)
+	if os.Getenv("VERIF_NO_EXIT") != "" {
+		// coverage runs (tools/coverage.sh): the test has to return for the profile to be written
+		if rc != 0 {
+			t.Errorf("check exited with %d", rc)
+		}
+		return
+	}
+	os.Exit(rc)
 }
